@@ -44,6 +44,7 @@ structure Chain where
   withdrawAddr : Addr
   noRedelegate : Addr → Bool
   noUndelegate : Addr → Bool                 -- the staking module refuses undelegations from this validator (entry limit)
+  inactive : Addr → Bool                     -- the validator has left the active (bonded) set; staking messages to it still work
   unbondingTime : Nat
   oracleOk : Bool
   oraclePrice : Nat
@@ -389,6 +390,7 @@ inductive EnvOp where
   | donate (a : Addr) (d : Denom) (amt : Nat)
   | blockRedelegation (v : Addr) (on : Bool)
   | blockUndelegation (v : Addr) (on : Bool)
+  | setInactive (v : Addr) (on : Bool)
   | oracle (ok : Bool) (price : Nat)
   | swap (ok : Bool) (p2 : Nat)
   | seedLegacy (u : Addr) (batch amt : Nat)
@@ -418,6 +420,8 @@ def Sys.env (s : Sys) (op : EnvOp) : Sys :=
     { s with chain := { s.chain with noRedelegate := upd s.chain.noRedelegate v on } }
   | .blockUndelegation v on =>
     { s with chain := { s.chain with noUndelegate := upd s.chain.noUndelegate v on } }
+  | .setInactive v on =>
+    { s with chain := { s.chain with inactive := upd s.chain.inactive v on } }
   | .oracle ok p => { s with chain := { s.chain with oracleOk := ok, oraclePrice := p } }
   | .swap ok p => { s with chain := { s.chain with swapOk := ok, swapP2 := p } }
   | .seedLegacy u b amt => { s with hub := { s.hub with legacy := HubSt.insLegacy (u, b, amt) s.hub.legacy } }
